@@ -159,6 +159,29 @@ func (c *Ctx) Violate(sig, what string, files map[string]string) {
 	c.violations = append(c.violations, Violation{Sig: full, What: what, Replay: dir})
 }
 
+// Side records an observation that contradicts ANOTHER property than the one this check decides - e.g. a breach of the CLI
+// contract seen by the side monitor that wraps every tool run, or a configuration of the documented language that is rejected.
+// It is a verdict only in the checks of the owning properties; elsewhere the run is inconclusive on that point (the check's own
+// oracles may be working from a report they cannot trust, or had nothing to observe): a check never raises an alarm for a
+// property other than its own.
+func (c *Ctx) Side(owners, sig, what string, files map[string]string) {
+	for _, o := range strings.Split(owners, ",") {
+		if o == c.Prop {
+			c.Violate(sig, what, files)
+			return
+		}
+	}
+	c.mu.Lock()
+	defer c.mu.Unlock()
+	key := "side:" + owners + ":" + sig
+	c.Add2("side_observations_of_other_properties", 1)
+	if c.seenSig[key] {
+		return
+	}
+	c.seenSig[key] = true
+	c.inconclusive = append(c.inconclusive, fmt.Sprintf("an observation that belongs to property %s, not to %s (%s): %s", owners, c.Prop, sig, strings.ReplaceAll(firstLines(what, 3), "\n", " | ")))
+}
+
 // Add2 is Add without locking (caller holds c.mu).
 func (c *Ctx) Add2(key string, n int) {
 	v, _ := c.Extra[key].(int)
